@@ -364,6 +364,17 @@ class QueueHooks(QHooks):
                   'success return without triggerpull()', E)
 
 
+def counter_vars(fn, k):
+    """locals compared with the constant k (the address-length counters), by declaration id without #n"""
+    out = set()
+    for x in fn.all_x():
+        if x.k == 'bin' and x.op in ('<', '<=', '>', '>=', '==', '!='):
+            for a, b in ((x.args[0], x.args[1]), (x.args[1], x.args[0])):
+                if b is not None and b.const in (k, k - 1) and a is not None and a.var and a.var[:2] == 'L:':
+                    out.add(a.var.split('#')[0])
+    return out or {'L:len'}
+
+
 def run(ctx):
     db, rep = ctx.db, ctx.report
     prog = db.program('qmail-queue')
@@ -380,6 +391,7 @@ def run(ctx):
         'C01.16-trigger': rep.rule('C01.16-trigger', 'R-ORDER', 'triggerpull() on every path from the commit to exit 0'),
     }
     H = QueueHooks(rules)
+    H.precise = frozenset(counter_vars(main, macro_const(db, 'qmail-queue.c', 'ADDR')))
     eng = Engine(db, prog, H)
     eng.run(main)
     rep.count_states(eng.states, eng.transitions)
@@ -459,15 +471,16 @@ def run(ctx):
     # --- address bound: loops reading an address are bounded by ADDR and overflow exits 11
     r = rules['C01.7-envelope-gate']
     addr = macro_const(db, 'qmail-queue.c', 'ADDR')
+    from qv.lib import consistent_values
     n = 0
-    for c in main.calls('die'):
+    uni = range(0, 2 * addr + 10)
+    for c in main.calls(('die', '_exit')):
         if c.args and c.args[0].const == 11:
             n += 1
-            g = main.guards(c) or []
-            okg = any(cond.strip().k == 'bin' and cond.strip().op == '>=' and cond.strip().args[1].const == addr
-                      and cond.strip().args[0].path() and cond.strip().args[0].path().startswith('L:len') and t is True
-                      for cond, t in g)
-            r.check(okg, 'die(11)-iff-len>=ADDR', c.where, 'exit 11 must be guarded by len >= ADDR (%d)' % addr)
+            cv = consistent_values(main, c, uni)
+            okg = any(vals == {v for v in uni if v >= addr} for vals in cv.values())
+            r.check(okg, 'exit-11-iff-length>=ADDR@%d' % n, c.where, 'exit 11 must be taken exactly for address lengths >= ADDR (%d); guards admit %s' %
+                    (addr, {k: (min(v), max(v)) if v else None for k, v in cv.items()}))
     if n < 2:
         r.bad('two-address-length-gates', 'qmail-queue.c:main', 'expected an exit-11 length gate after the sender and after each recipient, found %d' % n)
     # every 1-byte envelope read inside a loop sits in a loop bounded by len < ADDR, or is the record-letter read
